@@ -1259,6 +1259,9 @@ class cmap_format_12_or_13(CmapSubtable):
                 + self.data
             )
         charCodes = list(self.cmap.keys())
+        if not charCodes:
+            # an empty subtable is valid (numGroups == 0), same as for formats 4 and 6
+            return struct.pack(">HHLLL", self.format, self.reserved, 16, self.language, 0)
         names = list(self.cmap.values())
         nameMap = ttFont.getReverseGlyphMap()
         try:
